@@ -50,13 +50,11 @@ Lemma all_wf_app e c a b : all_wf e c a -> all_wf e c b -> all_wf e c (a ++ b).
 Proof. induction a as [|x a IH]; cbn; [tauto|]. intros [H1 H2] Hb. split; [exact H1|exact (IH H2 Hb)]. Qed.
 
 (* ------------------------------------------------------------------ the local guard *)
-Definition u0_differs (u0 : option str) (ou : option str) : bool :=
-  match u0 with Some u => negb (ostr_eqb ou (Some u)) | None => true end.
 Definition value_texts_ok (v : wvalue) : bool := forallb (forallb is_xml_char) (value_texts v).
 Definition node_wf (u0 : option str) (q : qname) (ats : list (qname * wvalue)) (ks : list item) : bool :=
   name_ok q
   && forallb (fun a => attr_name_ok (fst a) && value_names_ok (attr_conv a) && value_texts_ok (attr_conv a)
-                       && negb (value_none (snd a)) && u0_differs u0 (fst (fst a))) ats.
+                       && negb (value_none (snd a))) ats.
 Definition data_wf (v : wvalue) : bool :=
   value_names_ok v && value_texts_ok v.
 Definition wf_guard (u0 : option str) : item -> bool := all_nodes (node_wf u0) data_wf.
@@ -173,7 +171,7 @@ Proof. intros H s Hs. rewrite forallb_forall in H. apply H, value_texts_In, Hs. 
 
 (* ------------------------------------------------------------------ attributes *)
 Definition am_entry_ok (u0 : option str) (a : qname * option str) : Prop :=
-  attr_name_ok (fst a) = true /\ u0_differs u0 (fst (fst a)) = true
+  attr_name_ok (fst a) = true
   /\ exists v, snd a = Some v /\ forallb is_xml_char v = true.
 
 Lemma qname_eqb_neq a b : qname_eqb a b = false -> a <> b.
@@ -226,20 +224,20 @@ Qed.
 Lemma fold_attrs_ok u0 ats : forall m am,
   minv u0 m -> Forall (am_entry_ok u0) am -> NoDup (map fst am) ->
   forallb (fun a => attr_name_ok (fst a) && value_names_ok (attr_conv a) && value_texts_ok (attr_conv a)
-                    && negb (value_none (snd a)) && u0_differs u0 (fst (fst a))) ats = true ->
+                    && negb (value_none (snd a))) ats = true ->
   let '(am', m') := fold_attrs m am ats in
   minv u0 m' /\ ext m m' /\ Forall (am_entry_ok u0) am' /\ NoDup (map fst am').
 Proof.
   induction ats as [|[qa v] ats IH]; intros m am Hinv Ham Hnd Hg; cbn [fold_attrs].
   - split; [exact Hinv|split; [apply ext_refl|split; assumption]].
   - cbn [forallb] in Hg. apply andb_true_iff in Hg as [Ha Hg].
-    apply andb_true_iff in Ha as [Ha Hu0]. apply andb_true_iff in Ha as [Ha Hnn].
+    apply andb_true_iff in Ha as [Ha Hnn].
     apply andb_true_iff in Ha as [Ha Htx]. apply andb_true_iff in Ha as [Hname Hvn].
     unfold attr_conv in *. cbn [fst snd] in *.
     pose proof (encode_data_ok u0 m (attr_value_conv qa v) Hinv Hvn) as He.
     destruct (encode_data m (attr_value_conv qa v)) as [enc m1]. destruct He as [I1 [E1 R1]].
     assert (Hentry : am_entry_ok u0 (qa, enc)).
-    { split; [exact Hname|split; [exact Hu0|]]. cbn [snd].
+    { split; [exact Hname|]. cbn [snd].
       destruct enc as [t|].
       - destruct R1 as [_ [ts [Hr Ht]]]. exists t. split; [reflexivity|]. subst t.
         apply (encoded_chars m1 ts _ (minv_legal _ _ I1) Hvn Hr).
@@ -260,20 +258,23 @@ Proof.
   apply nm_get_In, He, In_nm_get; assumption.
 Qed.
 
+Lemma ext_prefixed m m' u : ext m m' -> (exists p, nm_get m (Some p) = Some u) -> exists p, nm_get m' (Some p) = Some u.
+Proof. intros He [p H]. exists p. apply He, H. Qed.
+
 Lemma fold_add_namespace_ok u0 (attrs : attrmap) : forall m,
   minv u0 m -> Forall (fun a => ouri_ok (fst (fst a)) = true) attrs ->
-  let m' := fold_left (fun m a => add_namespace (fst (fst a)) m) attrs m in
+  let m' := fold_left (fun m a => add_namespace_attr (fst (fst a)) m) attrs m in
   minv u0 m' /\ ext m m'
-  /\ Forall (fun a => forall u, fst (fst a) = Some u -> u <> [] -> prefix_exists u m' = true) attrs.
+  /\ Forall (fun a => forall u, fst (fst a) = Some u -> u <> [] -> exists p, nm_get m' (Some p) = Some u) attrs.
 Proof.
   induction attrs as [|a attrs IH]; intros m Hinv Hu; cbn [fold_left].
   - split; [exact Hinv|split; [apply ext_refl|constructor]].
   - inversion Hu as [|? ? Ha Hr]; subst.
-    destruct (add_namespace_ok u0 m (fst (fst a)) Hinv Ha) as [I1 [E1 P1]].
+    destruct (add_namespace_attr_ok u0 m (fst (fst a)) Hinv Ha) as [I1 [E1 P1]].
     destruct (IH _ I1 Hr) as [I2 [E2 P2]].
     split; [exact I2|split; [exact (ext_trans _ _ _ E1 E2)|]].
     constructor; [|exact P2]. intros u Hu' Hne.
-    apply (prefix_exists_ext _ _ u (mi_uniq _ _ I1) E2). exact (P1 u Hu' Hne).
+    apply (ext_prefixed _ _ u E2). exact (P1 u Hu' Hne).
 Qed.
 
 Lemma attr_name_ok_uri q : attr_name_ok q = true -> ouri_ok (fst q) = true /\ is_ncname (snd q) = true.
@@ -303,19 +304,8 @@ Proof.
   assert (Hu : Forall (fun a => ouri_ok (fst (fst a)) = true) attrs).
   { apply Forall_forall. intros a Ha. rewrite Forall_forall in Ham.
     destruct (Ham a Ha) as [Hn _]. apply attr_name_ok_uri in Hn. tauto. }
-  destruct (fold_add_namespace_ok u0 attrs m Hinv Hu) as [I3 [E3 P3]].
-  set (m3 := fold_left (fun m a => add_namespace (fst (fst a)) m) attrs m) in *.
-  (* every attribute namespace has a *prefixed* binding in m3 *)
-  assert (Hpre : Forall (fun a => forall u, fst (fst a) = Some u -> u <> [] ->
-                                            exists p, nm_get m3 (Some p) = Some u) attrs).
-  { apply Forall_forall. intros a Ha u Hau Hne. rewrite Forall_forall in P3, Ham.
-    pose proof (P3 a Ha u Hau Hne) as Hp. apply prefix_exists_iff in Hp as [p Hin].
-    pose proof (minv_In_get _ _ _ _ I3 Hin) as Hg.
-    destruct p as [p|]; [exists p; exact Hg|]. exfalso.
-    destruct (Ham a Ha) as [_ [Hd _]].
-    destruct (mi_default_user _ _ I3 u Hg) as [->|Hu0]; [contradiction|].
-    rewrite Hu0 in Hd. cbn [u0_differs] in Hd. apply negb_true_iff in Hd.
-    exact (eq_true_false_abs _ (proj2 (ostr_eqb_eq _ _) Hau) Hd). }
+  destruct (fold_add_namespace_ok u0 attrs m Hinv Hu) as [I3 [E3 Hpre]].
+  set (m3 := fold_left (fun m a => add_namespace_attr (fst (fst a)) m) attrs m) in *.
   destruct (negb (truthy (fst q)) && nm_has_key m3 None) eqn:Er.
   - apply andb_true_iff in Er as [Eq Ek].
     destruct (reset_default_ok u0 m3 I3 Ek) as [I4 [K4 D4]].
@@ -415,11 +405,11 @@ Qed.
 
 (* attribute names *)
 Lemma attr_name_fine u0 e c m a :
-  minv u0 m -> env_is e m -> ctx_maps c m -> am_entry_ok u0 a ->
+  minv u0 m -> env_is e m -> ctx_maps c m -> ctx_pref c m -> am_entry_ok u0 a ->
   (forall u, fst (fst a) = Some u -> u <> [] -> exists p, nm_get m (Some p) = Some u) ->
   attr_fine e c a.
 Proof.
-  intros Hinv He Hc [Hn [Hd [v [Hv Hx]]]] Hb. pose proof (minv_legal _ _ Hinv) as Hl.
+  intros Hinv He Hc Hcp [Hn [v [Hv Hx]]] Hb. pose proof (minv_legal _ _ Hinv) as Hl.
   destruct a as [[ou l] val]. cbn [fst snd] in *.
   unfold attr_name_ok, name_ok in Hn. cbn [fst snd] in Hn.
   apply andb_true_iff in Hn as [Hn Hxm]. apply andb_true_iff in Hn as [Hloc Hu].
@@ -440,9 +430,8 @@ Proof.
         unfold attr_name. rewrite split_lex_prefixed by assumption.
         pose proof (Hl _ _ Hp') as Hleg. unfold legal_entry in Hleg. destruct Hleg as [_ [Hnx _]].
         rewrite (str_eqb_neq _ _ Hnx). rewrite (lookup_prefix_ok e m _ _ He Hl Hp'). reflexivity.
-      * (* the context names the default prefix: then u is the user's default namespace *)
-        exfalso. destruct (mi_default_user _ _ Hinv uu Hp') as [H|H]; [discriminate|].
-        rewrite H in Hd. cbn [u0_differs] in Hd. rewrite ostr_eqb_refl in Hd. discriminate.
+      * (* the context never names the default prefix for a namespace with a prefixed binding *)
+        exfalso. exact (Hcp p uu Hp Hc').
   - exists l, v. split; [reflexivity|split; [exact Hv|split; [|exact Hx]]].
     unfold attr_name. rewrite split_lex_plain by exact Hloc.
     cbn in Hxm. apply negb_true_iff in Hxm. rewrite Hxm. reflexivity.
@@ -515,22 +504,17 @@ Proof.
     apply andb_true_iff in Hu as [_ Hu]. rewrite Hu. reflexivity.
 Qed.
 
-Lemma minv_nil u0 : minv u0 [].
-Proof.
-  constructor; cbn; try (intros; discriminate); try (intros; tauto); try constructor.
-  all: try (intros k H; contradiction).
-Qed.
-
 (* ------------------------------------------------------------------ one element *)
 Lemma node_wf_core u0 pm m2 q attrs kids_s e c :
-  minv u0 pm -> minv u0 m2 -> ext pm m2 -> env_is e pm -> ctx_maps c pm ->
+  (pm = [] \/ minv u0 pm) -> minv u0 m2 -> ext pm m2 -> env_is e pm -> ctx_maps c pm -> ctx_pref c pm ->
   name_ok q = true ->
   (forall u, fst q = Some u -> exists p, nm_get m2 p = Some u) ->
   Forall (am_entry_ok u0) attrs -> NoDup (map fst attrs) ->
-  (forall e' c', env_is e' (flush_map q attrs m2) -> ctx_maps c' (flush_map q attrs m2) -> all_wf e' c' kids_s) ->
+  (forall e' c', env_is e' (flush_map q attrs m2) -> ctx_maps c' (flush_map q attrs m2) ->
+                 ctx_pref c' (flush_map q attrs m2) -> all_wf e' c' kids_s) ->
   sn_wf e c (SNode (changed_entries pm (flush_map q attrs m2)) q attrs kids_s).
 Proof.
-  intros Hpm Hm2 Hext He Hc Hq Hqb Ham Hnd Hkids.
+  intros Hpm Hm2 Hext He Hc Hcp Hq Hqb Ham Hnd Hkids.
   pose proof (flush_map_ok u0 q attrs m2 Hm2 Ham) as Hf.
   set (m4 := flush_map q attrs m2) in *.
   set (ch := changed_entries pm m4).
@@ -541,8 +525,14 @@ Proof.
   { intros p Hp. apply (fl_keys _ _ _ _ _ Hf). destruct (nm_get pm p) as [u|] eqn:G; [|contradiction].
     rewrite (Hext p u G). discriminate. }
   pose proof (env_is_step e pm m4 He Hnd4 Hkeys) as He'.
-  pose proof (ctx_maps_step u0 c pm m4 Hc Hpm Hnd4 Hext4) as Hc'.
-  fold ch in He', Hc'.
+  assert (Hnone : forall u, u <> [] -> nm_get m4 None = Some u -> pm = [] \/ nm_get pm None = Some u).
+  { intros u Hu Hg. destruct Hpm as [Hpm|Hpm]; [left; exact Hpm|right].
+    destruct (mi_default_user _ _ (fl_inv _ _ _ _ _ Hf) u Hg) as [H|H]; [contradiction|].
+    pose proof (mi_has_default _ _ Hpm u H) as Hk.
+    destruct (nm_get pm None) as [x|] eqn:G; [|contradiction].
+    destruct (Hext4 None x G) as [H1|[_ H1]]; rewrite H1 in Hg; inversion Hg; subst; [reflexivity|contradiction]. }
+  destruct (ctx_step u0 c pm m4 Hc Hcp (fl_inv _ _ _ _ _ Hf) Hext4 Hnone) as [Hc' Hcp'].
+  fold ch in He', Hc', Hcp'.
   apply sn_wf_node. repeat split.
   - apply Forall_forall. intros [p u] Hin. unfold ch, changed_entries in Hin. apply filter_In in Hin as [Hin _].
     apply legal_decl_fine. exact (mi_legal _ _ (fl_inv _ _ _ _ _ Hf) _ _ Hin).
@@ -554,7 +544,7 @@ Proof.
     + destruct (Hqb _ eq_refl) as [p Hp]. exists p. apply Hd, Hp.
     + exact Hd.
   - apply Forall_forall. intros a Ha. rewrite Forall_forall in Ham.
-    apply (attr_name_fine u0 _ _ m4 a (fl_inv _ _ _ _ _ Hf) He' Hc' (Ham a Ha)).
+    apply (attr_name_fine u0 _ _ m4 a (fl_inv _ _ _ _ _ Hf) He' Hc' Hcp' (Ham a Ha)).
     pose proof (fl_attrs _ _ _ _ _ Hf) as Hfa. rewrite Forall_forall in Hfa. exact (Hfa a Ha).
   - exact Hnd.
   - apply Hkids; assumption.
@@ -576,25 +566,25 @@ Proof.
 Qed.
 
 Definition kid_wf (u0 : option str) (W : nsmap -> item -> list snode) (k : item) : Prop :=
-  forall m e c, minv u0 m -> env_is e m -> ctx_maps c m -> wf_guard u0 k = true -> all_wf e c (W m k).
+  forall m e c, minv u0 m -> env_is e m -> ctx_maps c m -> ctx_pref c m -> wf_guard u0 k = true -> all_wf e c (W m k).
 
 Lemma kids_wf u0 W ks m e c :
-  Forall (kid_wf u0 W) ks -> minv u0 m -> env_is e m -> ctx_maps c m ->
+  Forall (kid_wf u0 W) ks -> minv u0 m -> env_is e m -> ctx_maps c m -> ctx_pref c m ->
   forallb (wf_guard u0) ks = true -> all_wf e c (flat_map (W m) ks).
 Proof.
-  intros HW Hinv He Hc. induction HW as [|k ks Hk _ IH]; intros Hg; [exact I|].
+  intros HW Hinv He Hc Hcp. induction HW as [|k ks Hk _ IH]; intros Hg; [exact I|].
   cbn [forallb] in Hg. apply andb_true_iff in Hg as [Hgk Hgs]. cbn [flat_map].
-  apply all_wf_app; [exact (Hk m e c Hinv He Hc Hgk)|exact (IH Hgs)].
+  apply all_wf_app; [exact (Hk m e c Hinv He Hc Hcp Hgk)|exact (IH Hgs)].
 Qed.
 
 Lemma elem_wf u0 W pm a0 m q ats ks e c :
   Forall (kid_wf u0 W) ks ->
-  minv u0 pm -> minv u0 m -> ext pm m -> env_is e pm -> ctx_maps c pm ->
+  (pm = [] \/ minv u0 pm) -> minv u0 m -> ext pm m -> env_is e pm -> ctx_maps c pm -> ctx_pref c pm ->
   Forall (am_entry_ok u0) a0 -> NoDup (map fst a0) ->
   node_wf u0 q ats ks = true -> forallb (wf_guard u0) ks = true ->
   sn_wf e c (wref_elem W pm a0 m q ats ks).
 Proof.
-  intros HW Hpm Hm Hext He Hc Ha0 Hnd0 Hnode Hkids.
+  intros HW Hpm Hm Hext He Hc Hcp Ha0 Hnd0 Hnode Hkids.
   unfold node_wf in Hnode. apply andb_true_iff in Hnode as [Hq Hats].
   unfold wref_elem.
   assert (Hqu : ouri_ok (fst q) = true) by (unfold name_ok in Hq; apply andb_true_iff in Hq; tauto).
@@ -612,7 +602,7 @@ Proof.
     - apply am_remove_nodup, N2. }
   destruct ks as [|k ks'].
   - destruct (Hfl true) as [Hfa Hfn].
-    apply (node_wf_core u0 pm m2 q _ _ e c Hpm I2 (ext_trans _ _ _ Hext (ext_trans _ _ _ E1 E2)) He Hc Hq); try assumption.
+    apply (node_wf_core u0 pm m2 q _ _ e c Hpm I2 (ext_trans _ _ _ Hext (ext_trans _ _ _ E1 E2)) He Hc Hcp Hq); try assumption.
     + intros u Hu. destruct (Hqb1 u Hu) as [p Hp]. exists p. apply E2, Hp.
     + intros; exact I.
   - destruct k as [v|qc atc kc].
@@ -621,27 +611,27 @@ Proof.
       destruct (encode_data m2 v) as [enc m2']. destruct Ht as [I3 [E3 T3]].
       destruct (Hfl (enc_is_none enc)) as [Hfa Hfn].
       apply (node_wf_core u0 pm m2' q _ _ e c Hpm I3
-               (ext_trans _ _ _ Hext (ext_trans _ _ _ E1 (ext_trans _ _ _ E2 E3))) He Hc Hq); try assumption.
+               (ext_trans _ _ _ Hext (ext_trans _ _ _ E1 (ext_trans _ _ _ E2 E3))) He Hc Hcp Hq); try assumption.
       * intros u Hu. destruct (Hqb1 u Hu) as [p Hp]. exists p. apply E3, E2, Hp.
-      * intros e' c' He' Hc'. apply all_wf_app; [apply T3|].
+      * intros e' c' He' Hc' Hcp'. apply all_wf_app; [apply T3|].
         inversion HW as [|? ? _ HW']; subst.
         apply (kids_wf u0 W ks' _ e' c' HW'); try assumption.
         exact (fl_inv _ _ _ _ _ (flush_map_ok u0 q _ m2' I3 Hfa)).
     + destruct (Hfl false) as [Hfa Hfn].
-      apply (node_wf_core u0 pm m2 q _ _ e c Hpm I2 (ext_trans _ _ _ Hext (ext_trans _ _ _ E1 E2)) He Hc Hq); try assumption.
+      apply (node_wf_core u0 pm m2 q _ _ e c Hpm I2 (ext_trans _ _ _ Hext (ext_trans _ _ _ E1 E2)) He Hc Hcp Hq); try assumption.
       * intros u Hu. destruct (Hqb1 u Hu) as [p Hp]. exists p. apply E2, Hp.
-      * intros e' c' He' Hc'. apply (kids_wf u0 W _ _ e' c' HW); try assumption.
+      * intros e' c' He' Hc' Hcp'. apply (kids_wf u0 W _ _ e' c' HW); try assumption.
         exact (fl_inv _ _ _ _ _ (flush_map_ok u0 q _ m2 I2 Hfa)).
 Qed.
 
 Theorem wref_wf u0 i : kid_wf u0 wref i.
 Proof.
-  induction i as [v|q ats ks IH] using item_ind2; intros m e c Hinv He Hc Hg.
+  induction i as [v|q ats ks IH] using item_ind2; intros m e c Hinv He Hc Hcp Hg.
   - cbn [wf_guard all_nodes] in Hg. cbn [wref].
     pose proof (txt_of_fine u0 m v Hinv Hg) as H. destruct (encode_data m v) as [enc m']. cbn [fst].
     destruct H as [_ [_ H]]. apply H.
   - cbn [wf_guard all_nodes] in Hg. apply andb_true_iff in Hg as [Hn Hk]. cbn [wref all_wf]. split; [|exact I].
-    apply (elem_wf u0 wref m [] m q ats ks e c IH Hinv Hinv (ext_refl m) He Hc); try assumption; constructor.
+    apply (elem_wf u0 wref m [] m q ats ks e c IH (or_intror Hinv) Hinv (ext_refl m) He Hc Hcp); try assumption; constructor.
 Qed.
 
 (* the document element *)
@@ -654,8 +644,9 @@ Proof.
   unfold wref_root.
   apply (elem_wf u0 wref [] a0 user q ats ks [] []); try assumption.
   - apply Forall_forall. intros k _. apply wref_wf.
-  - apply minv_nil.
+  - left. reflexivity.
   - intros p u H. discriminate.
   - apply env_is_nil.
   - apply ctx_maps_nil.
+  - apply ctx_pref_nil.
 Qed.
